@@ -133,6 +133,12 @@ def jobs(tier, seed):
         ('LD', L(D(I(), I(2)), I()), L(D(I(), I()), I(2))),
         ('S', L(('s', 2), I()), L(('s', 2), ('s', 1))),
         ('leaf', I(2), I(1)),
+        # falsy / empty top-level documents (an empty stream and an empty document are different things)
+        ('emptyL', L(), L(I())),
+        ('emptyD', D(), D(I())),
+        ('false', ('b', False), ('b', True)),
+        ('emptyS', ('s', 0), ('s', 1)),
+        ('null', ('n',), I()),
     ]
     if tier != 'quick':
         shapes += [('L33', L(I(), I(2), I()), L(I(2), I(), I(2))), ('D32', D(I(), I(2), I()), D(I(2), I())),
@@ -161,7 +167,7 @@ META = dict(functions=th.TREE_FUNCTIONS + ["graphtage.json.JSON.build_tree / JSO
 
 
 def bounds_text(tier):
-    return ("8 (thorough 11) document shapes (lists, mappings, nestings, strings, a scalar) x all 15 ordered format pairs other than "
+    return ("13 (thorough 16) document shapes (lists, mappings, nestings, strings, scalars, empty/falsy top-level documents) x all 15 ordered format pairs other than "
             "json/json x {auto, none} x list modes; every leaf value symbolic; baseline = json/json on the same symbolic data")
 
 
